@@ -1,16 +1,15 @@
 SPECIFICATION Spec
 CONSTANTS
-  Snap <- SnapM
-  Def <- DefM
-  Chain <- ChainM
-  Head0 <- HeadM
+  Snap <- SnapA
+  Def <- DefA
+  Chain <- ChainA
+  Head0 <- HeadA
   MaxCrash = 1
   MaxTries = 3
-  AcceptRepair = TRUE
+  AcceptRepair = FALSE
   LockedMarker = TRUE
-  Known <- KnownAll
+  Known <- KnownNone
 INVARIANT C21Inv
 INVARIANT C22Inv
 INVARIANT Consistent
-ACTION_CONSTRAINT Emit
 CHECK_DEADLOCK FALSE
